@@ -69,10 +69,10 @@ func doAclCheck(method string, path string, token *jwt.Token, core *security.Ser
 		return echo.NewHTTPError(http.StatusForbidden, "user does not have permission")
 	}
 
-	// get the method
-	action := "read"
-	if method == "DELETE" || method == "POST" {
-		action = "write"
+	// only safe methods can be served with read access, every other method changes state and needs write access
+	action := "write"
+	if method == http.MethodGet || method == http.MethodHead || method == http.MethodOptions {
+		action = "read"
 	}
 
 	for _, ac := range acl {
